@@ -534,7 +534,10 @@ func c16Flow(c *Ctx) {
 				}
 			}
 			for _, r := range returnsOf(fn) {
-				if len(r.Results) == 0 || !isNilConst(r.Results[len(r.Results)-1]) {
+				if len(r.Results) == 0 {
+					continue
+				}
+				if last := r.Results[len(r.Results)-1]; !isNilConst(last) && !knownNilAt(last, r.Block()) {
 					continue
 				}
 				just := ""
